@@ -26,6 +26,9 @@ Numeral(tok, n) == IF \E i \in 1..Len(NumTable) : NumTable[i].sp[1] = tok
                    THEN NumTable[CHOOSE i \in 1..Len(NumTable) : NumTable[i].sp[1] = tok].sp[n] ELSE tok
 \* remove the parentheses around MultiPoint members: only valid inside a MULTIPOINT body; done on the tree
 PtToksN(p,n) == FlatT([i \in 1..Len(p) |-> LET t == NumToks(p[i]) IN [j \in 1..Len(t) |-> Numeral(t[j], n)]])
+\* the parentheses are optional per member: mode 0 none bare, 1 all bare, 2 the odd members bare, 3 the even members bare
+BareModes == 0..3
+BareAt(mode, i) == mode = 1 \/ (mode = 2 /\ i % 2 = 1) \/ (mode = 3 /\ i % 2 = 0)
 RECURSIVE Respell(_,_,_,_)
 Respell(g, kw, n, bare) ==
   LET k == CHOOSE i \in 1..7 : TypeNames[i] = g.t
@@ -34,7 +37,7 @@ Respell(g, kw, n, bare) ==
   IN IF g.c = <<>> \/ k \notin {4,7} THEN tokmap(base)
      ELSE IF k = 4 THEN <<Kw(KwUpper[4], kw)>> \o Tag(g.ct) \o
              Paren(Commas([i \in 1..Len(g.c) |-> IF g.c[i] = <<>> THEN <<"EMPTY">>
-                                                  ELSE IF bare THEN PtToksN(g.c[i], n) ELSE Paren(PtToksN(g.c[i], n))]))
+                                                  ELSE IF BareAt(bare, i) THEN PtToksN(g.c[i], n) ELSE Paren(PtToksN(g.c[i], n))]))
      ELSE <<Kw(KwUpper[7], kw)>> \o Tag(g.ct) \o Paren(Commas([i \in 1..Len(g.c) |-> Respell(g.c[i], kw, n, bare)]))
 \* character level: join the tokens with a separator; around punctuation the separator is optional
 IsPunct(t) == t \in {"(", ")", ","}
